@@ -96,6 +96,30 @@ def r2(ctx):
       seen['new'] = len(add) == 1 and [U(a) for a in add[0].node.args] == [j.params[1]]
   ctx.ob('C05.R2', j, 'a new member is added; a duplicate join is ignored here or in __AddServer', seen.get('new') is True and seen.get('dup', True) is True, 'join cases: %s' % seen, why)
   a = prog.func(B, 'LoadBalancerSink.__AddServer')
+  # who guards against an endpoint that is already a member: __AddServer itself, or else every one of its callers
+  guard_in_add = False
+  for ev, ex in enum_paths(ctx, a):
+    if any(('in' in c and 'self._servers' in c) for c, t in POS(facts(ev))):
+      guard_in_add = True
+  if not guard_in_add:
+    unguarded = []
+    for g in prog.all_funcs:
+      if g.module.rel != B or g is a:
+        continue
+      for c in ast.walk(g.node):
+        if isinstance(c, ast.Call) and U(c.func).endswith('__AddServer'):
+          ok_c = False
+          if not any(isinstance(x, (ast.ListComp, ast.GeneratorExp, ast.For)) and any(y is c for y in ast.walk(x)) for x in ast.walk(g.node)):
+            for ev, ex in enum_paths(ctx, g):
+              idx = [i for i, e in enumerate(ev) if e.kind == 'call' and e.node is c]
+              if idx:
+                ok_c = any('self._servers' in c_ and 'in' in c_ for c_, t_ in POS(facts(ev, idx[0])))
+                if not ok_c:
+                  break
+          if not ok_c:
+            unguarded.append(g.qualname)
+    ctx.ob('C05.R2', a, 'an endpoint that is already a member is never added again (guard in __AddServer, or in every caller)', not unguarded,
+           '__AddServer has no membership test and is called without one from %s (the initial member list may name an endpoint twice: a stale and a fresh znode of one instance)' % sorted(set(unguarded)), why)
   for ev, ex in enum_paths(ctx, a):
     fs = facts(ev)
     st = [e.node for e in ev if e.kind == 'stmt' and isinstance(e.node, ast.Assign) and isinstance(e.node.targets[0], ast.Subscript) and U(e.node.targets[0].value) == 'self._servers']
@@ -164,6 +188,7 @@ def r3(ctx):
   prog = ctx.prog
   why = 'every current member is dispatchable (active or held idle) and no departed member is'
   add_remove(ctx, 'C05.R3')
+  in_order(ctx)
   oc = prog.func(H, 'HeapBalancerSink._OnServersChanged')
   ep, fac, added = oc.params[1:4]
   seen = {}
@@ -263,3 +288,32 @@ def add_remove_atomic(ctx):
       whole = bool(fac) and all(any(c in list(ast.walk(w)) for w in withs) for c in fac)
     ctx.ob('C05.R3', f, '%s runs under the heap lock from its first statement (channel creation included)' % nm, whole,
            '%s is not @synchronized / its channel factory runs outside `with self._heap_lock`' % nm, why)
+
+
+def in_order(ctx):
+  """Membership steps run where and when the server set delivers them: join/leave handlers, _OnServersChanged (and every override of it), _AddSink and
+  _RemoveSink are called directly, never handed to another greenlet or a timer."""
+  prog = ctx.prog
+  why = ('the server set delivers join and leave in order, back to back (a flapping or re-registering instance: leave then join, join then leave): a step deferred to another '
+         'greenlet runs after the later one, so a member that left is added for good / a member that re-joined is removed')
+  steps = ('_AddSink', '_RemoveSink', '_OnServersChanged', '__AddServer', '__RemoveServer', '_LoadBalancerSink__AddServer', '_LoadBalancerSink__RemoveServer',
+           '__OnServerSetJoin', '__OnServerSetLeave')
+  bad = []
+  n = 0
+  for f in prog.all_funcs:
+    if not f.module.rel.startswith('scales/loadbalancer/'):
+      continue
+    for c in ast.walk(f.node):
+      if not isinstance(c, ast.Call):
+        continue
+      nm = (dotted(c.func) or U(c.func)).split('.')[-1]
+      if nm in ('spawn', 'spawn_later', 'spawn_raw', 'start_new_thread', 'Greenlet', 'apply_async', 'Schedule', 'rawlink', 'link', 'ContinueWith', 'partial'):
+        tgt = [a for a in c.args if (isinstance(a, ast.Attribute) and a.attr in steps) or (isinstance(a, ast.Name) and a.id in steps)]
+        lam = [a for a in c.args if isinstance(a, ast.Lambda) and any(isinstance(x, ast.Call) and (dotted(x.func) or '').split('.')[-1] in steps for x in ast.walk(a.body))]
+        if (tgt or lam) and nm != 'partial':
+          bad.append('%s: %s' % (f.qualname, U(c)[:90]))
+    if f.name == '_OnServersChanged' and f.cls is not None:
+      n += 1
+  ctx.ob('C05.R3', prog.func('scales/loadbalancer/heap.py', 'HeapBalancerSink._OnServersChanged'),
+         'join/leave steps run synchronously, in delivery order', not bad, 'deferred membership step: %s' % bad, why)
+  ctx.floor('C05.R3', '_OnServersChanged implementations', n, 1)
